@@ -46,7 +46,7 @@ pub struct Report {
     rules: Vec<String>,
 }
 
-pub const MAX_VIOLATIONS_KEPT: usize = 200;
+pub const MAX_VIOLATIONS_KEPT: usize = 100;
 
 impl Report {
     pub fn new(property: &str, tier: &str) -> Report {
@@ -79,7 +79,9 @@ impl Report {
 
     pub fn violation(&mut self, v: Violation) {
         self.violations_total += 1;
-        if self.violations.len() < MAX_VIOLATIONS_KEPT {
+        // keep at most MAX per sub-check so that one noisy family cannot hide another
+        let in_sub = self.violations.iter().filter(|x| x.sub == v.sub).count();
+        if in_sub < MAX_VIOLATIONS_KEPT {
             self.violations.push(v);
         }
     }
@@ -157,7 +159,17 @@ impl Report {
         }
         let mut k = 0;
         let mut listed_in_evidence = vec![];
-        for v in &self.violations {
+        // print round-robin over sub-checks so that the first replay files are diverse
+        let mut rank_in_sub: BTreeMap<String, usize> = BTreeMap::new();
+        let mut order: Vec<(usize, usize)> = vec![];
+        for (i, v) in self.violations.iter().enumerate() {
+            let r = rank_in_sub.entry(v.sub.clone()).or_insert(0);
+            order.push((*r, i));
+            *r += 1;
+        }
+        order.sort();
+        let ordered: Vec<&Violation> = order.iter().map(|(_, i)| &self.violations[*i]).collect();
+        for v in ordered {
             if let Some(text) = known.matches(&self.property, &v.key) {
                 *known_hits.entry(format!("{} :: {}", v.key, text)).or_insert(0) += 1;
                 continue;
